@@ -414,6 +414,14 @@ def rule_unreg(ctx, rep):
                       what="thread leaves registry_defer before its own flush (the reclaimer cannot pick up a freed queue)")
 
 
+def rule_wake(ctx, rep):
+    """wake_up_defer: reset the reclaimer's futex word before FUTEX_WAKE, only when it is -1 (all flavors)"""
+    from .. import waitloop as _wl
+    for fl in ALL:
+        F = FL[fl]
+        _wl.check_wakers(rep, "C13.wake", fl, ctx.mod(F.lib, "perfn"), lambda name, ap: name == "defer_thread_futex")
+
+
 RULES = [
     ("C13.codec", rule_codec),
     ("C13.cap", rule_cap),
@@ -422,5 +430,6 @@ RULES = [
     ("C13.locks", rule_locks),
     ("C13.reg", rule_reg),
     ("C13.unreg", rule_unreg),
+    ("C13.wake", rule_wake),
 ]
 FLOORS = {}
